@@ -962,10 +962,16 @@ def _where(func, args, kwargs):
     conv = conv_for(dt)
     pc, pa, pb = np.broadcast_arrays(P(c), P(a), P(b))
     out = np.empty(pc.shape, dtype=object)
+    decided = C().intcache
+
     def g(cc, x, y):
         cc = tobool(cc)
         if z3.is_true(cc): return conv(x)
         if z3.is_false(cc): return conv(y)
+        # a condition this path has already decided (e.g. by a masked assignment with the same mask): the same branch, no case split
+        hit = decided.get(("bool", z3.simplify(cc).get_id()))
+        if hit is not None:
+            return conv(x) if hit[1] else conv(y)
         return z3.If(cc, conv(x), conv(y))
     if out.size:
         out.reshape(-1)[:] = [g(cc, x, y) for cc, x, y in zip(pc.reshape(-1), pa.reshape(-1), pb.reshape(-1))]
